@@ -69,9 +69,9 @@ claim('C07', 'proof', K1 + '; ' + K2,
 claim('C10', 'proof', K1 + '; ' + BD,
       'lazily built caches are representation fields with object invariants: only their owner functions touch them (enforced by the verifier), every owner re-establishes the invariant at exit and at every yield, and owners\' results are functions of (section bytes, arguments) whatever the cache holds (unit cache: _cached_CU_at_offset, get_CU_at, get_CU_containing, _parse_CUs_iter with interference at yields; entry cache: get_top_DIE, _get_cached_DIE, get_DIE_from_refaddr, iter_DIE_children); stream positions are havocked at every call and yield in all K1 contracts, so every proved postcondition holds for any position the previous query left',
       'the whole-history statement (any finite sequence of queries) follows from per-operation invariant preservation by induction over the history; that induction is not machine checked. Section-name and symbol-name maps, abbreviation and line-program caches, decoded call-frame tables are covered only by the bounded history differentials (entry queries, call-frame decode orders)')
-claim('C11', 'proof', K2 + '; ' + K1,
-      'debuglink (padding lambda proved), debugsup, debugaltlink structs K2; Section.data/Section.__init__ (gABI compression: header, size check, zlib) K1',
-      'get_dwarf_info / _read_dwarf_section / _decompress_dwarf_section / supplementary-file following and _file_crc32 are NOT yet under contract; zlib assumed; Sem of construct node kinds assumed')
+claim('C11', 'proof', K2 + '; ' + K1 + '; ' + BD,
+      'K2: debuglink (padding lambda proved), debugsup, debugaltlink structs; K1 (all inputs): Section.__init__/Section.data (gABI compression: header, declared-size check, zlib) ; bounded differential: one generated payload stored plainly, SHF_COMPRESSED (levels 1/6/9, partial), in the legacy .zdebug framing and behind a gnu_debuglink with right/wrong checksum, both classes and byte orders: identical units/entries/section contents, presence reporting, rejection of a wrong checksum and of a wrong declared size',
+      'get_dwarf_info / _read_dwarf_section / _decompress_dwarf_section / _file_crc32 are NOT under K1 contract (19-section loop, streaming zlib): covered by the bounded differential only; supplementary-file links not exercised; zlib assumed; Sem of construct node kinds assumed')
 claim('C12', 'proof', K2 + '; ' + BD,
       'dispatch table of the expression parser: for every DW_OP code the registered parser reads exactly the operand kinds DWARF v5 7.7.1 / GNU extensions prescribe (closure analysis of the real table + replay of each parser on concrete operands); the name map is the inverse of the code map',
       'parse_expr loop itself (offset bookkeeping, caching) is covered by a bounded sample of expressions; wasm/GNU entry-value nesting sampled')
